@@ -129,9 +129,15 @@ pub struct Subject {
     pub cap: u32,
 }
 
+/// A corrupted list (self-loop) would make the walk endless: the callback unwinds out of it.
+const WALK_LIMIT: usize = 64;
+
 fn observe(m: &LruManager) -> (usize, Vec<String>, [bool; 4]) {
     let mut order = Vec::new();
-    m.for_each_entry(|k| order.push(key_name(k)));
+    m.for_each_entry(|k| {
+        order.push(key_name(k));
+        assert!(order.len() <= WALK_LIMIT, "for_each_entry visited more than {WALK_LIMIT} entries: the list has a cycle");
+    });
     let mut c = [false; 4];
     for i in 0..4u8 {
         c[i as usize] = m.contains(&key(i));
@@ -317,7 +323,10 @@ impl SeqSubject for Subject {
                 }
             }
             // state oracle after every operation
-            let (len, order, contains) = observe(&imp);
+            let (len, order, contains) = match crate::util::catch(|| observe(&imp)) {
+                Ok(x) => x,
+                Err(p) => return fail(i, "list-walk-panics", format!("after {op:?}: walking the list panicked: {p}"), calls),
+            };
             calls += 6;
             let m_order: Vec<String> = model.lru.iter().map(|k| format!("k{k}")).collect();
             if imp.capacity() != self.cap {
